@@ -30,7 +30,7 @@ CHECKS = {
   note="Trusted: the harness's reference list and the rendering of the property's clauses (Append/Add append one entry at the end; Set may overwrite every entry with the tag). Single caller goroutine by the container's contract. The library under test is an instrumented scratch copy of /repo's working tree (a yield call before every statement, otherwise identical)."),
  "C13": dict(
   level="exploration",
-  text="Seeded search over Append/Contains/Remove/Count histories on all six collection kinds (item list, IRI list, Collection, OrderedCollection and their pages; through their own methods, through CollectionInterface and, for Remove, through the item-list view) against an insertion-ordered-set reference model, with capacity/aliasing knobs; exhaustive up to a stated small bound, seeded beyond (big runs with pools of 20..80 items and 150 calls); in the clients mode two or three independent collections are driven by tasks under the seeded statement-level scheduler and each is checked against its own model (package-level state inside the library that no sequential history can see); minimised exact replays.",
+  text="Seeded search over Append/Contains/Remove/Count histories on all six collection kinds (item list, IRI list, Collection, OrderedCollection and their pages; through their own methods, through CollectionInterface and, for Remove, through the item-list view) against an insertion-ordered-set reference model, with capacity/aliasing knobs; exhaustive up to a stated small bound, seeded beyond (big runs with pools of 20..80 items and 150 calls, half of them ending in a fill-and-drain phase that empties the grown collection member by member); in the clients mode two or three independent collections are driven by tasks under the seeded statement-level scheduler and each is checked against its own model (package-level state inside the library that no sequential history can see); minimised exact replays.",
   ref="§5.1", technique="deterministic simulation: seeded + bounded-exhaustive history generation, refinement against an insertion-ordered-set model, seeded statement-level scheduler over independent clients, tape-shrinking minimiser, exact replay (no fault dimension exists)",
   note="Trusted: the reference model and the identity function of pool items (pairwise distinct ids, URL-shaped and opaque; what the items hold in their own lists may lack ids). One caller goroutine per collection by contract."),
  "C04": dict(
